@@ -231,3 +231,72 @@ func (c *Ctx) FindDecl(rel, name string) (*packages.Package, *ast.FuncDecl) {
 
 // Pkg is an alias for packages.Package (for tools outside this module's core).
 type Pkg = packages.Package
+
+// LiteralFields returns the fields a composite literal sets, by name: the keyed elements of the literal itself and,
+// when the literal (or its address) initialises a local variable, every later `v.F = expr` assignment to that
+// variable in the same function. `x := &T{}; x.A = a; x.B = b` thereby reads like `&T{A: a, B: b}`.
+func LiteralFields(info *types.Info, fn ast.Node, cl *ast.CompositeLit) (map[string]ast.Expr, []string) {
+	set := map[string]ast.Expr{}
+	var order []string
+	for _, el := range cl.Elts {
+		if kv, ok := el.(*ast.KeyValueExpr); ok {
+			if id, ok := kv.Key.(*ast.Ident); ok {
+				set[id.Name] = kv.Value
+				order = append(order, id.Name)
+			}
+		}
+	}
+	var holder types.Object
+	ast.Inspect(fn, func(n ast.Node) bool {
+		switch x := n.(type) {
+		case *ast.AssignStmt:
+			for i, rhs := range x.Rhs {
+				e := ast.Unparen(rhs)
+				if u, ok := e.(*ast.UnaryExpr); ok {
+					e = ast.Unparen(u.X)
+				}
+				if e == ast.Expr(cl) && i < len(x.Lhs) {
+					if id, ok := x.Lhs[i].(*ast.Ident); ok {
+						if holder = info.Defs[id]; holder == nil {
+							holder = info.Uses[id]
+						}
+					}
+				}
+			}
+		case *ast.ValueSpec:
+			for i, rhs := range x.Values {
+				e := ast.Unparen(rhs)
+				if u, ok := e.(*ast.UnaryExpr); ok {
+					e = ast.Unparen(u.X)
+				}
+				if e == ast.Expr(cl) && i < len(x.Names) {
+					holder = info.Defs[x.Names[i]]
+				}
+			}
+		}
+		return true
+	})
+	if holder == nil {
+		return set, order
+	}
+	ast.Inspect(fn, func(n ast.Node) bool {
+		as, ok := n.(*ast.AssignStmt)
+		if !ok || len(as.Lhs) != len(as.Rhs) {
+			return true
+		}
+		for i, l := range as.Lhs {
+			se, ok := l.(*ast.SelectorExpr)
+			if !ok {
+				continue
+			}
+			if id, ok := ast.Unparen(se.X).(*ast.Ident); ok && info.Uses[id] == holder {
+				if _, dup := set[se.Sel.Name]; !dup {
+					order = append(order, se.Sel.Name)
+				}
+				set[se.Sel.Name] = as.Rhs[i]
+			}
+		}
+		return true
+	})
+	return set, order
+}
